@@ -7,11 +7,14 @@ import (
 	"strings"
 )
 
-func getFullPath(filename string, appendExt bool) (string, error) {
-	if usesTemplates {
-		filename = joinPaths(userConfig.TemplateDir, filename)
-	}
+// getTemplatePath returns the absolute path of the template with the
+// given name. The name is always relative to the template directory,
+// no matter which other calls were made before
+func getTemplatePath(name string) (string, error) {
+	return getFullPath(joinPaths(userConfig.TemplateDir, name), true)
+}
 
+func getFullPath(filename string, appendExt bool) (string, error) {
 	if appendExt {
 		filename += userConfig.TemplateExt
 	}
